@@ -6,7 +6,14 @@ p = sys.argv[1]
 extra = ('\nOther testers have already tried the first ideas that come to mind for this property. Spend some time reading the '
          'anchor files and their callers first, and prefer mechanisms, code paths and clauses of the property that are NOT the most '
          'obvious targets (less travelled branches, equivalent entry points, helper functions shared with other features, interactions '
-         'between two features).\n') if len(sys.argv) > 2 and sys.argv[2] == 'deep' else ''
+         'between two features).\n') if len(sys.argv) > 2 and sys.argv[2] in ('deep', 'wide') else ''
+if len(sys.argv) > 2 and sys.argv[2] == 'wide':
+    extra += ('Stale caches / memoisation, one-shot iterators consumed twice, and "same change as an obvious one but in another place" '
+              'have been done many times already: do NOT use those. Prefer instead: boundary conditions (empty rows, zero, the last '
+              'index, a single element), a wrong field or wrong direction in a rarely taken branch, ordering changes (sorted/reversed/'
+              'set iteration) that only matter for particular shapes, aliasing of mutable arguments or defaults, equality vs identity, '
+              'bool-vs-int or str-vs-enum confusions, changed error classes or checks moved after a mutation, default arguments, '
+              'and interactions between two public features that are each fine alone.\n')
 prop = next(json.loads(l) for l in open('/verif/properties.jsonl') if json.loads(l)['id'] == p)
 os.makedirs('/tmp/wt', exist_ok=True)
 wt = f'/tmp/wt/{p}'
